@@ -212,6 +212,8 @@ class Walker:
                 if block in loops:
                     # loop header: an arbitrary iteration (the loop condition is assumed by the branch that follows)
                     v = self.fresh(st, "%" + i.res, i.type) if i.type.startswith("i") else None
+                    if v is not None and prev is not None and prev not in loops[block]:
+                        self._induction_facts(st, block, loops[block], i, v, prev)
                 elif prev is not None:
                     for val, lab in i.x["incoming"]:
                         if lab == prev.name:
@@ -219,6 +221,8 @@ class Walker:
                 newv[i.res] = v
             st.env.update(newv)
             if block in loops:
+                if any(i.op == "store" or (i.op == "call" and (i.callee or "").startswith("llvm.mem")) for b in loops[block] for i in b.instrs):
+                    st.events.append(("loop-writes", block.name))      # memory written inside the loop is not itemised on this path
                 # fields stored inside the loop are unknown at an arbitrary iteration
                 for b in loops[block]:
                     for i in b.instrs:
@@ -245,6 +249,48 @@ class Walker:
 
     def _loop_cut(self, block, st):
         pass
+
+    def _induction_facts(self, st, header, body, phi, v, prev):
+        """phi = [init from outside, phi + c from inside] with a positive constant step: the value never falls below init; when
+        the loop is left on phi == b (stays while phi != b), the step is 1 and init <= b holds on entry, it never exceeds b"""
+        init = None
+        step = None
+        for val, lab in phi.x["incoming"]:
+            pb = self.fn.blocks[lab]
+            if pb in body:
+                d = self.fn.defs.get(val.v) if val.kind == "reg" else None
+                if d is not None and d.op == "add" and d.ops[1].kind == "int" and d.ops[0].kind == "reg" and d.ops[0].v == phi.res:
+                    step = d.ops[1].v if step in (None, d.ops[1].v) else 0
+                else:
+                    step = 0
+            else:
+                iv = self.val(st, val)
+                init = iv if (init is None and isinstance(iv, Lin)) else (init if init == iv else False)
+        if not step or not isinstance(init, Lin):
+            return
+        if step < 0:
+            st.facts.append(v - init)                # counting down: phi <= init
+            return
+        st.facts.append(init - v)                    # counting up: init <= phi
+        if step != 1:
+            return
+        from .cfg import cfg_of
+        for u in cfg_of(self.fn).users(phi.res):
+            if u.op != "icmp" or u.x["pred"] not in ("eq", "ne") or u.block not in body:
+                continue
+            other = u.ops[1] if (u.ops[0].kind == "reg" and u.ops[0].v == phi.res) else u.ops[0]
+            if other.kind == "reg":
+                od = self.fn.defs.get(other.v)
+                if od is not None and od.block in body:
+                    continue          # not loop-invariant
+            b = self.val(st, other)
+            if not isinstance(b, Lin):
+                continue
+            # the comparison must decide whether the loop goes on
+            brs = [x for x in cfg_of(self.fn).users(u.res) if x.op == "br" and len(x.x["targets"]) == 2]
+            leaves = any(self.fn.blocks[t] not in body for x in brs for t in x.x["targets"])
+            if leaves and self.entails(st, init - b):
+                st.facts.append(v - b)               # phi <= b
 
     def _exec(self, st, i, block):
         op = i.op
@@ -290,6 +336,18 @@ class Walker:
         elif op == "store":
             self._store(st, i)
         elif op == "select":
+            c = self.val(st, i.ops[0])
+            if isinstance(c, tuple) and c[0] == "cmp" and i.type.startswith("i"):
+                # a value chosen by a comparison: follow both choices as separate paths, each with the comparison's outcome assumed
+                outs = []
+                for truth, arm in ((True, i.ops[1]), (False, i.ops[2])):
+                    s2 = st.copy()
+                    if not (self._assume(s2, c[1], truth) and self.feasible(s2)):
+                        continue
+                    v = self.val(s2, arm)
+                    s2.env[i.res] = v if isinstance(v, Lin) else self.fresh(s2, "%" + i.res, i.type)
+                    outs += self._continue_after(s2, i, block)
+                return outs
             st.env[i.res] = self.fresh(st, "%" + i.res, i.type) if i.type.startswith("i") else None
         elif op == "alloca":
             st.env[i.res] = ("obj", i.res)
